@@ -68,7 +68,7 @@ def run_rem(ov, ga, gb, divisor):
 
 def worker(params):
     prog = H.get_program()
-    S.BITS_MODE[:] = ['uf', 128]
+    S.BITS_MODE[:] = ['ladder', 192]        # exact bit-length facts (the pinned code of this property never asks for bits() of a symbolic integer; rewrites might)
     return H.explore_task(prog, run_rem(params['ov'], params['ga'], params['gb'], params['div']), task=params,
                           loop_bound=800, timeout_ms=60000, deadline_s=600, panic_is_violation=True)
 
